@@ -62,6 +62,7 @@ def run(chk) -> None:
     _r24b(chk, repo)
     _r24c(chk, repo)
     _r24d(chk, repo, mod)
+    _r24f(chk, repo)
 
 
 # ---------------------------------------------------------------------------
@@ -367,9 +368,63 @@ def _r24d(chk, repo, mod) -> None:
     chk.require(ok, "R24d", rr, "DelayedException.reraise does not raise the carried exception", detail="carrier raises carried exception")
 
 
+def _r24f(chk, repo) -> None:
+    """Results travel back from workers by pickling: every error class with a
+    custom __reduce__ must hand *all* constructor inputs back to its constructor,
+    in order (otherwise e.g. the ignore/warning flags set in the worker are lost
+    in the parent, and exit codes differ with the number of processes)."""
+    chk.rule("R24f", "every error class with a custom __reduce__ round-trips all constructor parameters, in order (worker results are pickled back to the parent)")
+    ERR = "src/sqlfluff/core/errors.py"
+    m = repo.mod(ERR)
+    n = 0
+    for q, c in m.classes():
+        red = next((i for i in c.body if isinstance(i, FuncNode) and i.name == "__reduce__"), None)
+        if red is None:
+            continue
+        n += 1
+        init = repo.lookup_method(m, c, "__init__")
+        params = [a.arg for a in init[1].args.args[1:]] + [a.arg for a in init[1].args.kwonlyargs] if init else []
+        # attribute <- parameter map from __init__ bodies along the MRO
+        attr_of = {}
+        for mm, cc in repo.mro(m, c):
+            for item in cc.body:
+                if isinstance(item, FuncNode) and item.name == "__init__":
+                    for st in ast.walk(item):
+                        if isinstance(st, ast.Assign) and isinstance(st.targets[0], ast.Attribute) and isinstance(st.targets[0].value, ast.Name) and st.targets[0].value.id == "self":
+                            names = [x.id for x in ast.walk(st.value) if isinstance(x, ast.Name)]
+                            for nm in names:
+                                attr_of.setdefault(st.targets[0].attr, set()).add(nm)
+        rets = [r for r in walk_local(red) if isinstance(r, ast.Return)]
+        ok, why = True, ""
+        for r in rets:
+            v = r.value
+            if not (isinstance(v, ast.Tuple) and len(v.elts) == 2 and isinstance(v.elts[1], ast.Tuple)):
+                ok, why = False, "__reduce__ does not return (type(self), (args...))"
+                break
+            args = v.elts[1].elts
+            if len(args) != len(params):
+                ok, why = False, f"__reduce__ passes {len(args)} values but __init__ takes {len(params)} parameters {params}: the missing ones are reset to their defaults when a result comes back from a worker"
+                break
+            for a, p in zip(args, params):
+                good = isinstance(a, ast.Attribute) and isinstance(a.value, ast.Name) and a.value.id == "self" and (a.attr == p or p in attr_of.get(a.attr, ()))
+                if not good:
+                    ok, why = False, f"__reduce__ passes {norm(a)} in the position of constructor parameter '{p}'"
+                    break
+        chk.require(ok and bool(rets), "R24f", red, f"{c.name}: {why or 'no return in __reduce__'}", detail=f"{c.name}.__reduce__ round-trips constructor inputs")
+        chk.sample({"rule": "R24f", "class": c.name, "params": params})
+    chk.count("R24f.reduce_methods", n)
+    chk.floor("R24f.reduce_methods", 3)
+
+
 from ..selftest import Variant  # noqa: E402
 
 VARIANTS = [
+    Variant("lint-error-pickle-drops-warning", "src/sqlfluff/core/errors.py",
+            "            self.fixes,\n            self.ignore,\n            self.fatal,\n            self.warning,\n        )",
+            "            self.fixes,\n            self.ignore,\n            self.fatal,\n        )", "R24f", "SQLLintError", "seeded C22-1"),
+    Variant("parse-error-pickle-swaps-flags", "src/sqlfluff/core/errors.py",
+            "            self.segment,\n            self.line_no,\n            self.line_pos,\n            self.ignore,\n            self.fatal,\n            self.warning,",
+            "            self.segment,\n            self.line_no,\n            self.line_pos,\n            self.fatal,\n            self.ignore,\n            self.warning,", "R24f", "SQLParseError"),
     Variant("worker-renders-with-default-config", RUNNER,
             "                rendered = linter.render_file(task.fname, task.root_config)",
             "                rendered = linter.render_file(task.fname, linter.config.copy())", "R24a", "_apply"),
